@@ -1,8 +1,11 @@
 """C01 - find_answer decides satisfiability and leaves a genuine model (structural clauses)."""
 from ..core.findings import Report
 from ..core.loader import Repo
-from . import opc
+from . import exprmodel, opc
 
 
 def run(repo: Repo, rep: Report) -> None:
     opc.check_z3_translator(repo, rep)
+    world = exprmodel.ExprWorld(repo)
+    opc.check_scalar_dunders(repo, rep, world)
+    opc.check_helpers(repo, rep, world)
